@@ -6,6 +6,8 @@ import (
 	"reflect"
 	"strconv"
 	"strings"
+
+	"github.com/mattn/anko/env"
 )
 
 // toString converts all reflect.Value-s into string.
@@ -14,6 +16,10 @@ func toString(v reflect.Value) string {
 		v = v.Elem()
 	}
 	if v.Kind() == reflect.Ptr && !v.IsNil() {
+		if module, ok := v.Interface().(*env.Env); ok {
+			// a module prints itself under its own lock (fmt would walk its tables without it)
+			return module.String()
+		}
 		v = v.Elem()
 	}
 	if v.Kind() == reflect.String {
